@@ -1,5 +1,7 @@
 import Drv.Common
 import IwModel.Model.JsonMerge
+import IwModel.Model.BinnPatch
+import Drv.C15
 /-! `drv c16`: JSON Merge Patch model behind the protocol of harness/h_c16.c. -/
 namespace Drv.C16
 open IwModel IwModel.Merge Drv
@@ -20,6 +22,29 @@ def binAnswer (doc : JVal) (r : JVal × Patch.Err) : String :=
 
 def step (ws : List String) : String :=
   match ws with
+  | "bmerge" :: mode :: hex :: "|" :: pts =>
+    -- the composed model on the binn BYTES: hex in, hex out (`jbljbl`: the patch is given as bytes too)
+    match (ofHex hex).bind BinnPatch.ofBuf with
+    | none => "bad-op"
+    | some h =>
+      if mode == "jbl" then
+        match JVal.ofWire pts with
+        | some patch => let res := BinnPatch.mergeHolder h patch; s!"{res.2.name} {C15.showHolder res.1}"
+        | none => "bad-op"
+      else if mode == "jbljbl" then
+        match pts with
+        | [phex] =>
+          match (ofHex phex).bind BinnPatch.ofBuf with
+          | some ph => let res := BinnPatch.mergeHolderJbl h ph; s!"{res.2.name} {C15.showHolder res.1}"
+          | none => "bad-op"
+        | _ => "bad-op"
+      else "bad-op"
+  | "bmseq" :: hex :: "|" :: rest =>
+    match (ofHex hex).bind BinnPatch.ofBuf, (C15.splitBars rest).mapM JVal.ofWire with
+    | some h, some patches =>
+      let res := BinnPatch.mergeSeq h patches
+      s!"{",".intercalate (res.2.map (·.name))} {C15.showHolder res.1}"
+    | _, _ => "bad-op"
   | "merge" :: mode :: rest =>
     let (dts, pts) := splitBar rest
     match JVal.ofWire dts, JVal.ofWire pts with
